@@ -13,6 +13,7 @@ import (
 	"math/big"
 	"os"
 	"strconv"
+	"time"
 
 	sdkmath "cosmossdk.io/math"
 	sdk "github.com/cosmos/cosmos-sdk/types"
@@ -59,6 +60,12 @@ func load() {
 	}
 	if err := json.Unmarshal(b, &rf); err != nil {
 		panic(err)
+	}
+	// the node-local time zone is an environment input of the engine (calendar fields of process-local times)
+	if v, ok := rf.Model["env.tzOffsetSeconds"]; ok {
+		if off, err := strconv.Atoi(v); err == nil {
+			time.Local = time.FixedZone("verif", off)
+		}
 	}
 }
 
